@@ -542,9 +542,17 @@ class Check:
               "repo": REPO}
         if not self.cov["samples"]:
             self.cov["samples"].append("no sample recorded")
-        with open(os.path.join(VERIF, "evidence", "%s.json" % self.pid), "w") as f:
+        # (a run against another tree -- VERIF_REPO, used for seeded changes -- must not overwrite the
+        # evidence of the tree under test)
+        evdir = os.path.join(VERIF, "evidence") if os.path.realpath(REPO) == "/repo" else os.path.join(
+            VERIF, "evidence", "replay", "other-tree")
+        os.makedirs(evdir, exist_ok=True)
+        with open(os.path.join(evdir, "%s.json" % self.pid), "w") as f:
             json.dump(ev, f, indent=1, default=str)
-        shutil.rmtree(self.scratch, ignore_errors=True)
+        if os.environ.get("VERIF_KEEP"):
+            log("scratch kept: %s" % self.scratch)
+        else:
+            shutil.rmtree(self.scratch, ignore_errors=True)
         log("%s %s tier=%s seed=%d states=%d traces=%d evals=%d distinct=%d wall=%.0fs" % (
             "FAIL" if rc else "PASS", self.pid, self.tier, SEED, self.cov["states"],
             self.cov["traces_validated_against_impl"], self.cov["evaluations"], len(self.distinct),
